@@ -163,8 +163,14 @@ func (iv *Invalidator) InvalidateDBRange(db *litefs.DB, offset, size int64) erro
 	iv.PC.dropRange(db.Name(), offset, size)
 	return nil
 }
-func (iv *Invalidator) InvalidateSHM(db *litefs.DB) error { iv.PC.dropAll(db.Name() + "-shm"); return nil }
-func (iv *Invalidator) InvalidatePos(db *litefs.DB) error { iv.PC.dropAll(db.Name() + "-pos"); return nil }
+func (iv *Invalidator) InvalidateSHM(db *litefs.DB) error {
+	iv.PC.dropAll(db.Name() + "-shm")
+	return nil
+}
+func (iv *Invalidator) InvalidatePos(db *litefs.DB) error {
+	iv.PC.dropAll(db.Name() + "-pos")
+	return nil
+}
 func (iv *Invalidator) InvalidateEntry(name string) error {
 	iv.PC.dropAll(name)
 	if iv.M != nil {
@@ -172,7 +178,7 @@ func (iv *Invalidator) InvalidateEntry(name string) error {
 	}
 	return nil
 }
-func (iv *Invalidator) InvalidateLag() error               { return nil }
+func (iv *Invalidator) InvalidateLag() error { return nil }
 
 // Mount drives the handler methods of litefs/fuse the way the kernel would.
 type Mount struct {
